@@ -128,7 +128,7 @@ struct Timed {
 }
 
 /// `cut`: Some(n) = inject unsubscribe at the n-th cut point (C02), None = C07 oracle.
-fn c07_run(threads_form: bool, max_items: u32, do_cut: bool) {
+pub(crate) fn c07_run(threads_form: bool, max_items: u32, do_cut: bool) {
   let op = match e::choose(4) {
     0 => MoveOp::ObserveOn,
     1 => MoveOp::Delay(1 + e::choose(2) as u64),
@@ -137,7 +137,8 @@ fn c07_run(threads_form: bool, max_items: u32, do_cut: bool) {
   };
   let script = draw_script(max_items, true);
   let cold = matches!(op, MoveOp::DelaySubscription(_) | MoveOp::SubscribeOn) && e::choose_bool();
-  let kind = if threads_form { 1 + e::choose(2) } else { e::choose(2) };
+  // FIFO first, ANY second in both forms (the differential harness replays the same choices)
+  let kind = if threads_form { 2 - e::choose(2) } else { e::choose(2) };
   let probe = fresh_probe();
   let cut_at: i64 = if do_cut { e::choose(10) as i64 } else { -1 };
   let by_guard = do_cut && e::choose_bool();
@@ -362,7 +363,7 @@ pub fn harnesses() -> Vec<HarnessDef> {
     format!("observe_on, delay(1|2), delay_subscription(1|2), subscribe_on; scripts of <= {} symbolic items with gaps 0..2 and every terminal; hot and cold sources; executor run eagerly or late at every step; LocalPool(FIFO) and ANY-order executors (threads forms: hook FIFO and ANY)", if t { 3 } else { 2 })
   }
   add("c07_move", vec!["C07"], "scheduler-moving operators (local forms): delivered sequence, prefix-on-error, never earlier than the delay", b7, Box::new(|t| c07_run(false, if t { 3 } else { 2 }, false)), 2_000_000, 40_000_000, true);
-  add("c07_move_threads", vec!["C07", "C18"], "scheduler-moving operators (_threads forms)", b7, Box::new(|t| c07_run(true, if t { 3 } else { 2 }, false)), 2_000_000, 40_000_000, true);
+  add("c07_move_threads", vec!["C07"], "scheduler-moving operators (_threads forms)", b7, Box::new(|t| c07_run(true, if t { 3 } else { 2 }, false)), 2_000_000, 40_000_000, true);
   add("c07_at_forms", vec!["C07"], "delay_at, delay_at_threads, delay_subscription_at, timer_at, interval_at: requested delay = time remaining until the instant (real clock, instants now-5s / now / now+10s / now+1000s, tolerance 2 s)", |_| "6 operators x 4 instants".to_string(), Box::new(|_| c07_at_forms()), 10_000, 10_000, false);
   add("c02_sched", vec!["C02"], "scheduler operators: unsubscribe()/guard drop at every point of the script and of the virtual-time line, then every executor order drained and the clock advanced past every deadline", b7, Box::new(|t| c07_run(false, if t { 3 } else { 2 }, true)), 2_000_000, 40_000_000, true);
   add("c02_sched_threads", vec!["C02"], "same for the _threads forms", b7, Box::new(|t| c07_run(true, if t { 3 } else { 2 }, true)), 2_000_000, 40_000_000, true);
@@ -892,7 +893,15 @@ impl Subscription for FlagSub {
 }
 // counters: 10+id run count, 20+id time of (last) run, 30+id forbidden flag (set when unsubscribe returned), 40+id produced subscription unsubscribed, 50+id last seq
 fn ran(id: usize) {
-  world::bump(10 + id);
+  let n = world::bump(10 + id);
+  let period = world::counter(60 + id);
+  let last = world::counter(20 + id);
+  if n > 1 && period > 0 && (world::now() as i64) < last + period {
+    e::fail("task/repeat-faster-than-period", || format!("repeating task {} ran at t={} and again at t={} (period {})", id, last, world::now(), period));
+  }
+  if n == 1 {
+    world::set_counter(70 + id, world::now() as i64);
+  }
   world::set_counter(20 + id, world::now() as i64);
   if world::counter(30 + id) != 0 {
     e::fail("task/ran-after-unsubscribe", || format!("task {} body started after unsubscribe() on its handle had returned", id));
@@ -968,6 +977,7 @@ fn c19_tasks(ntasks: usize) {
           closed_q.push(Box::new(move || h2.borrow().as_ref().map_or(false, |x| x.is_closed())));
         }
         K::Repeat(p) => {
+          world::set_counter(60 + id, *p as i64);
           let h = sd.schedule(RepeatTask::new(d(*p), repeat_body, TaskArgs { id }), delay);
           let h = std::rc::Rc::new(std::cell::RefCell::new(Some(h)));
           let h2 = h.clone();
@@ -994,9 +1004,11 @@ fn c19_tasks(ntasks: usize) {
         e::fail("task/ran-twice", || format!("one-shot task {} ran {} times", id, runs));
       }
       if runs > 0 {
-        let first_allowed = spawn_time as i64 + delay.unwrap_or(0) as i64 + if let K::Repeat(p) = k { p as i64 } else { 0 };
-        let t = world::counter(20 + id);
-        if runs == 1 && t < first_allowed {
+        // never before its delay has elapsed (a repeating task additionally waits for its first period,
+        // which starts when the task is created: that is C08's subject, not claimed here)
+        let first_allowed = spawn_time as i64 + delay.unwrap_or(0) as i64;
+        let t = world::counter(70 + id);
+        if t < first_allowed {
           e::fail("task/ran-early", || format!("task {} ran at t={} but was not due before t={}", id, t, first_allowed));
         }
       }
@@ -1209,11 +1221,11 @@ pub fn harnesses2() -> Vec<HarnessDef> {
   let mut add = |id: &'static str, props: Vec<&'static str>, about: &'static str, bounds: fn(bool) -> String, f: Box<dyn Fn(bool) + Send + Sync>, bq: u64, bt: u64, sampled: bool| {
     v.push(HarnessDef { id, props, about, bounds, f, budget_quick: bq, budget_thorough: bt, thorough_only: false, sampled });
   };
-  add("c08_interval", vec!["C08"], "interval / interval_at: consecutive integers, first tick one period after subscription, never early however late the executor runs, exactly periodic when it runs as timers fall due", |t| format!("periods 1..3; {} ticks; clock steps of 1, 2 and 5; executor runs optional at every step; LocalPool and ANY-order", if t { 4 } else { 3 }), Box::new(|t| c08_interval(if t { 4 } else { 3 })), 2_000_000, 20_000_000, true);
+  add("c08_interval", vec!["C08"], "interval / interval_at: consecutive integers, first tick one period after subscription, never early however late the executor runs, exactly periodic when it runs as timers fall due", |t| format!("periods 1..3; {} ticks; clock steps of 1, 2 and 5; executor runs optional at every step; LocalPool and ANY-order", if t { 4 } else { 3 }), Box::new(|t| c08_interval(if t { 4 } else { 3 })), 600_000, 20_000_000, true);
   add("c08_timer", vec!["C08"], "timer: item once, not before the due time, then complete", |_| "delays 0..3; 4 optional-run steps of 0..2 then drain".to_string(), Box::new(|_| c08_timer()), 2_000_000, 2_000_000, false);
   add("c08_async", vec!["C08", "C13"], "from_future, from_future_result, from_stream, from_stream_result relay exactly the scripted values / error, nothing before the executor runs", |t| format!("futures pending 0..2 polls; streams of <= {} items each pending 0..1 polls, error at every position", if t { 4 } else { 3 }), Box::new(|t| c08_async(if t { 4 } else { 3 })), 2_000_000, 20_000_000, false);
   add("c09_rate", vec!["C09"], "debounce, throttle/throttle_time x {leading, tailing, all}, sample(interval), buffer_with_time, buffer_with_count_and_time on the virtual clock: only source items, at most once, in order; exact timed models for debounce and throttle; buffer laws", |t| format!("<= {} symbolic items with gaps 0..3; windows 1..2; at every instant timers-first or source-first; executor timely or late; LocalPool and ANY-order", if t { 4 } else { 3 }), Box::new(|t| c09_rate(if t { 4 } else { 3 })), 3_000_000, 40_000_000, true);
-  add("c19_tasks", vec!["C19"], "schedule(): one-shot, subscribing and repeating tasks; cancellation at every point; run orders; never early, at most once / consecutive seq, nothing after unsubscribe() returned", |t| format!("{} tasks; delays none/0/1/2; periods 1..2; LocalPool and ANY-order", if t { 3 } else { 2 }), Box::new(|t| c19_tasks(if t { 3 } else { 2 })), 3_000_000, 40_000_000, true);
+  add("c19_tasks", vec!["C19"], "schedule(): one-shot, subscribing and repeating tasks; cancellation at every point; run orders; never early, at most once / consecutive seq, nothing after unsubscribe() returned", |t| format!("{} tasks; delays none/0/1/2; periods 1..2; LocalPool and ANY-order", if t { 3 } else { 2 }), Box::new(|t| c19_tasks(if t { 3 } else { 2 })), 700_000, 40_000_000, true);
   add("c16_producers", vec!["C16"], "interval / from_iter(counting) / from_stream(endless) under intermediate operators and every early-terminating operator, producer in main and notifier position: no live task one period after the terminal, pulls bounded", |t| format!("{} intermediate operators; periods 1..2", if t { 2 } else { 1 }), Box::new(|t| c16_producers(if t { 2 } else { 1 })), 2_000_000, 20_000_000, true);
   v
 }
